@@ -871,3 +871,29 @@ def attr_mismatches(top, attrs):
         if got != want:
             out.append((id_, f, repr(got), repr(want)))
     return out
+
+
+def id_scheme_problems(top):
+    """The ids of the built table follow the allocation rule of GM.alloc: for every base name (a function's qualname at one
+    nesting prefix; a sub-DAG's qualname) the suffixes <<k>> in use are exactly 0 … count-1 — never a gap, never a
+    repetition (`GM.Dense`)."""
+    import re
+    groups = {}
+    prefixes = {}
+    for id_, node in top.exec_nodes.items():
+        if type(node).__name__ != "LazyExecNode":
+            continue
+        *pre, last = id_.split(".")
+        m = re.match(r"^(.*?)(?:<<(\d+)>>)?$", last)
+        groups.setdefault((tuple(pre), m.group(1)), []).append(int(m.group(2) or 0))
+        for d_ in range(len(pre)):
+            mp = re.match(r"^(.*?)(?:<<(\d+)>>)?$", pre[d_])
+            prefixes.setdefault((tuple(pre[:d_]), mp.group(1)), set()).add(int(mp.group(2) or 0))
+    out = []
+    for key, ks in groups.items():
+        if sorted(ks) != list(range(len(ks))):
+            out.append(("node ids", ".".join(key[0] + (key[1],)), sorted(ks)))
+    for key, ks in prefixes.items():
+        if sorted(ks) != list(range(len(ks))):
+            out.append(("sub-DAG prefixes", ".".join(key[0] + (key[1],)), sorted(ks)))
+    return out
